@@ -6,6 +6,7 @@ mod keysx;
 mod libx;
 mod posx;
 mod project;
+mod refx;
 mod render;
 mod router;
 mod squashx;
@@ -30,6 +31,7 @@ fn main() {
         "pos-replay" => posx::cmd_replay(rest),
         "squash-replay" => squashx::cmd_replay(rest),
         "lib-dump" => detx::cmd_dump(rest),
+        "refactor-replay" => refx::cmd_replay(rest),
         other => {
             eprintln!("unknown subcommand {}", other);
             2
